@@ -324,7 +324,7 @@ def make_tasks(tier):
         # depth 2: unit conversions happen during edits; chain a few letters
         for i, e in enumerate(l1[:n2]):
             for f in l1[i + 1:i + 1 + n2]:
-                if (e[1], e[2]) != (f[1], f[2]):
+                if e[0] == "multi" or f[0] == "multi" or (e[1], e[2]) != (f[1], f[2]):
                     tasks.append({"world": fam, "perms": {}, "history": [e, f]})
     return tasks
 
